@@ -25,14 +25,18 @@ import (
 
 // onHup means close by poller.
 func (c *connection) onHup(p Poll) error {
+	verifPoint(vpOnHupEnter, c, 0)
 	if !c.closeBy(poller) {
 		return nil
 	}
+	verifPoint(vpOnHupAfterCloseBy, c, 0)
 	c.triggerRead(Exception(ErrEOF, "peer close"))
 	c.triggerWrite(Exception(ErrConnClosed, "peer close"))
 
+	verifPoint(vpOnHupAfterTrigger, c, 0)
 	// call Disconnect callback first
 	c.onDisconnect()
+	verifPoint(vpOnHupAfterDisconnect, c, 0)
 
 	// It depends on closing by user if OnConnect and OnRequest is nil, otherwise it needs to be released actively.
 	// It can be confirmed that the OnRequest goroutine has been exited before closeCallback executing,
@@ -49,8 +53,10 @@ func (c *connection) onHup(p Poll) error {
 
 // onClose means close by user.
 func (c *connection) onClose() error {
+	verifPoint(vpOnCloseEnter, c, 0)
 	// user code close the connection
 	if c.closeBy(user) {
+		verifPoint(vpOnCloseWon, c, 0)
 		c.triggerRead(Exception(ErrConnClosed, "self close"))
 		c.triggerWrite(Exception(ErrConnClosed, "self close"))
 		// Detach from poller when processing finished, otherwise it will cause race
@@ -58,6 +64,7 @@ func (c *connection) onClose() error {
 		return nil
 	}
 
+	verifPoint(vpOnCloseLost, c, 0)
 	// closed by poller
 	// still need to change closing status to `user` since OnProcess should not be processed again
 	c.force(closing, user)
@@ -69,6 +76,7 @@ func (c *connection) onClose() error {
 
 // closeBuffer recycle input & output LinkBuffer.
 func (c *connection) closeBuffer() {
+	verifPoint(vpCloseBuffer, c, 0)
 	onConnect, _ := c.onConnectCallback.Load().(OnConnect)
 	onRequest, _ := c.onRequestCallback.Load().(OnRequest)
 	// if client close the connection, we cannot ensure that the poller is not process the buffer,
@@ -101,6 +109,7 @@ func (c *connection) inputAck(n int) (err error) {
 	}
 
 	length, _ := c.inputBuffer.bookAck(n)
+	verifPoint(vpInputAckAfterBook, c, n)
 	if c.maxSize < length {
 		c.maxSize = length
 	}
@@ -113,6 +122,7 @@ func (c *connection) inputAck(n int) (err error) {
 		needTrigger = c.onRequest()
 	}
 	if needTrigger && length >= int(atomic.LoadInt64(&c.waitReadSize)) {
+		verifPoint(vpInputAckBeforeTrigger, c, length)
 		c.triggerRead(nil)
 	}
 	return nil
@@ -120,6 +130,7 @@ func (c *connection) inputAck(n int) (err error) {
 
 // outputs implements FDOperator.
 func (c *connection) outputs(vs [][]byte) (rs [][]byte, _ bool) {
+	verifPoint(vpOutputs, c, 0)
 	if c.outputBuffer.IsEmpty() {
 		c.rw2r()
 		return rs, false
@@ -130,6 +141,7 @@ func (c *connection) outputs(vs [][]byte) (rs [][]byte, _ bool) {
 
 // outputAck implements FDOperator.
 func (c *connection) outputAck(n int) (err error) {
+	verifPoint(vpOutputAck, c, n)
 	if n > 0 {
 		c.outputBuffer.Skip(n)
 		c.outputBuffer.Release()
@@ -142,6 +154,8 @@ func (c *connection) outputAck(n int) (err error) {
 
 // rw2r removed the monitoring of write events.
 func (c *connection) rw2r() {
+	verifPoint(vpRw2rBeforeControl, c, 0)
 	c.operator.Control(PollRW2R)
+	verifPoint(vpRw2rBeforeTrigger, c, 0)
 	c.triggerWrite(nil)
 }
